@@ -2904,25 +2904,18 @@ func builtinMul(env *LEnv, v *LVal) *LVal {
 			return env.Errorf("argument is not a number: %v", c.Type)
 		}
 	}
-	return mulInt(Int(1), v)
-}
-
-// mulInt tries to perform multiplication as int if all arguments are int.
-func mulInt(x, args *LVal) *LVal {
-	if x.Type != LInt {
-		return Errorf("internal error: mulInt called with non-integer: %v", x.Type)
-	}
-	ys := args.Cells
-	for i := range ys {
-		y := ys[i]
-		switch {
-		case y.Type != LInt:
-			return mulFloat(x, SExpr(ys[i:]))
-		default:
-			x = Int(x.Int * y.Int)
+	// Classify the whole argument list first, like + and -: multiplying in
+	// int until the first float appeared let the int prefix wrap around, so
+	// (* 9223372036854775807 2 0.5) was -1 while (* 0.5 9223372036854775807 2)
+	// was 9.223372036854776e+18.
+	if numericListType(v.Cells) == LInt {
+		prod := 1
+		for _, c := range v.Cells {
+			prod *= c.Int
 		}
+		return Int(prod)
 	}
-	return x
+	return mulFloat(Int(1), v)
 }
 
 // mulFloat performs floating point multiplication.
